@@ -104,7 +104,7 @@ def check(pid, tier, seed):
                 if prob:
                     ops = [step_line(g, e2, kind)[2:] for e2 in path]
                     verdict.violation("observable[%s] %s %s" % (ty, name, prob.split(":")[1].strip().split()[0]), prob,
-                                      {"component": "observable", "type": ty, "init": enc(kind, g.states[g.edges[path[0]][0]]["val"]), "history": ops[:i + 1]})
+                                      {"component": "observable", "xid": xid, "type": ty, "init": enc(kind, g.states[g.edges[path[0]][0]]["val"]), "history": ops[:i + 1]})
                     break
             if prob and not prob.startswith("step"):
                 verdict.violation("observable[%s] stopped" % ty, prob, {"component": "observable", "type": ty})
@@ -119,3 +119,13 @@ def check(pid, tier, seed):
     rc = verdict.finish()
     common.write_evidence(pid, tier, seed, "model_checking", cov, ASSUMPTIONS, time.time() - t0, len(verdict.violations))
     return rc
+
+
+def all_harnesses():
+    exe = harness()
+    return {exe.name: exe}
+
+
+def replay(pid, path):
+    import sys
+    return common.replay(pid, path, sys.modules[__name__])
